@@ -85,7 +85,7 @@ Definition graft (g' g snap : state) : state :=
        (log g') (nchg g') (evn g').
 
 Definition mon_step (g : state) (o : op) (ob : option bool) (snap : state) : state :=
-  graft (fst (step_gen true true ob g o)) g snap.
+  graft (fst (step_gen true true true ob g o)) g snap.
 
 (** * Timing clauses, executable (evaluated by the monitor on every snapshot) *)
 
@@ -104,6 +104,10 @@ Definition retry_ok (x : ctx) (s' : sub) : bool :=
   (s_seen s' =? s_seen (x_sub x)) && (s_seen_ev s' =? s_seen_ev (x_sub x)) &&
   (s_rep_at s' =? s_rep_at (x_sub x)) && (x_now x <=? s_retry_at s') &&
   (s_retry_at s' <=? x_now x + N.max (s_max s') 2 * 1000).
+
+(** a report that was not sent (empty, not the liveness report) leaves the instant the liveness point and
+    the expiry are measured from where it was *)
+Definition skip_ok (x : ctx) (s' : sub) : bool := s_rep_at s' =? s_rep_at (x_sub x).
 
 (** after the sweep at [now]: no subscription is left whose last success (or, if it has had none
     since the restart, its resumption) lies one maximum interval or more in the past *)
@@ -128,7 +132,7 @@ Definition graft_e2e (g' g snap : state) : state :=
 
 (** monitor step without a snapshot: the monitor's own successor state *)
 Definition mon_step_e2e (g : state) (o : op) (ob : option bool) (snap : option state) : state :=
-  let g' := fst (step_gen true true ob g o) in
+  let g' := fst (step_gen true true true ob g o) in
   match snap with Some s => graft_e2e g' g s | None => g' end.
 
 Definition entry_eqb (a b : entry) : bool :=
